@@ -549,7 +549,8 @@ PROPERTIES = {
             "request/printer call the offset has been advanced by exactly the bytes written before the terminator, which is "
             "the condition under which ensure()'s realloc branch and its allocate+memcpy(offset+1)+free branch preserve the "
             "same bytes (independence from realloc availability and from the initial buffer size). TAB2: print() returns "
-            "blocks of the same size from both arms of its final shrink/copy.",
+            "blocks of the same size from both arms of its final shrink/copy. TAB23 (reading side): the literal the parser reads "
+            "back ends at the first quote that is not the second byte of an escape sequence, which is where the printer put it.",
         'not_decided': ['numeric round trip: %1.15g / %1.17g, the DBL_MAX -> inf case named in the property, -0.0',
                         'fixed point of print(parse(.)) as a value', 'shape/order/keys preservation beyond the table agreement'],
     },
@@ -604,7 +605,12 @@ PROPERTIES = {
             "number, array and object productions for exactly the first bytes RFC 8259 allows (byte-set dataflow over the "
             "guards); containers append each new node after the current tail and set the head only once (input order), "
             "object keys are the parsed string moved out of valuestring. LST1: the tail link is set. TAB1: the depth counter "
-            "is undone on success, so siblings do not count as nesting.",
+            "is undone on success, so siblings do not count as nesting. TAB21/TAB22: the bytes parse_hex4 takes for hex digits and the "
+            "bytes buffer_skip_whitespace steps over, as sets over all 256 values with C's arithmetic (wrap-around range tests, reads "
+            "through plain char). TAB23: the scan of parse_string for the closing quote, for all 256 values of the byte under its cursor, "
+            "leaves towards the decoder exactly on the quote, steps over two bytes on a backslash and over one otherwise - so the literal "
+            "ends where the decoder has it; where the quote is found by memchr/strchr instead, it is judged by the parity of the run of "
+            "backslashes in front of it (a single look at the byte in front is reported).",
         'not_decided': ['exactness of decoding for every text: correct rounding (delegated to strtod), the UTF-8 bit arithmetic '
                         'beyond its constants, whitespace/BOM acceptance, duplicate-member retention as values'],
     },
@@ -812,6 +818,8 @@ PROPERTIES = {
             "terminator; a size_t helper result counts as one non-negative term), for what sprintf/encode/strcat/memcpy and helpers "
             "with a recognised counting loop write. DIG1: a loop that only divides x by K and counts must run while x >= K (or x != 0): "
             "the digit count agrees with the radix (no instance today; armed by a fixture). OUT5: the encoder's write cursor leaves no gap. "
+            "ESC3: a byte of a member name is compared with a byte of a reference token directly (outside compare_pointers) only "
+            "behind tests that the token byte is neither '~' nor '/' (no instance today; armed by a fixture). "
             "Decides these clauses, not the resolution semantics as a whole.",
         'not_decided': ['RFC 6901 resolution as a function of (document, pointer): which node is returned',
                         "the 'text not starting with / resolves to the root' defect named in the property (a missing "
@@ -856,7 +864,9 @@ PROPERTIES = {
             "stores only next/prev and calls only itself and the comparator, so inputs are merely re-linked. TAB11: "
             "the flag reaches sort and compare. INP: create_patches stores through nothing derived from its two inputs and hands "
             "input nodes only to const parameters, the sorter, the comparator and itself. OWN2: path buffers and patch objects are "
-            "released or linked on every path. TAB20: key order comes from the comparator only.",
+            "released or linked on every path. TAB20: key order comes from the comparator only. ESC2: where a text keeps its own "
+            "length and an encoded name is appended at that length, the length moves on by the encoded length, not by strlen of the "
+            "name (no instance today; armed by a fixture). NUMU: two numbers are taken for equal only behind compare_double.",
         'not_decided': ['that applying the generated patch yields the target; emptiness iff equal; array index arithmetic'],
     },
     'C18': {
